@@ -355,6 +355,9 @@ class CSSSerializer:
     @staticmethod
     def _endsincomment(line, incomment):
         "Return if the end of `line` is inside a comment."
+        if '/*' not in line and '*/' not in line:
+            # nothing opens or closes a comment
+            return incomment
         quote = None
         i = 0
         while i < len(line):
